@@ -14,6 +14,7 @@ import (
 
 	_ "vh/gram"
 	_ "vh/h15"
+	_ "vh/hconc"
 	_ "vh/hreloc"
 	_ "vh/hjson"
 	_ "vh/htree"
